@@ -366,12 +366,17 @@ def run_quotient_form(facts, rep):
         if "MultiplyU64ModOperand" not in p or "::tests::" in p:
             continue
         body = facts.hir[p]
+        sites = []
         for x in walk(body):
-            if x.get("k") != "Assign":
-                continue
-            lhs = strip(x["lhs"])
-            if not (lhs.get("k") == "Field" and lhs.get("name") == "quotient"):
-                continue
+            if x.get("k") == "Assign":
+                lhs = strip(x["lhs"])
+                if lhs.get("k") == "Field" and lhs.get("name") == "quotient":
+                    sites.append(x)
+            elif x.get("k") == "Struct" and "MultiplyU64ModOperand" in x.get("path", ""):
+                for fld in x.get("fields", []):
+                    if fld.get("name") == "quotient" and strip(fld["e"]).get("k") != "Lit":
+                        sites.append({"k": "Assign", "lhs": {}, "rhs": fld["e"], "l": x.get("l")})
+        for x in sites:
             n += 1
             rep.fn(p)
             key = "%s/quotient" % p
